@@ -27,7 +27,14 @@ INFO = dict(
               "the current map and exchanges the current end points; barycentric round trip for piecewise affine maps "
               "with the consistency hypothesis decided by a proved, executable separating-line certificate; "
               "interpolation of the thin-plate system; the truncated-SVD solve characterised from numpy's raw SVD "
-              "contract; the two kernel classes define the same warp) + 4 `decide` obligations over tables regenerated "
+              "contract; the two kernel classes define the same warp; chains of any length: the reversed chain of "
+              "pseudoinverses inverts the chain) + SOURCE-TO-LEAN TRANSLATION: the pseudoinverse code itself (50 functions: "
+              "every pseudoinverse / has_true_inverse / _h_matrix_pseudoinverse body, the constructors and properties they "
+              "call, the spline and piecewise-affine constructors, alpha_beta / barycentric_vectors / _apply, tcoords.py) "
+              "is translated from the source text of the working tree on every run (harness/trans_c04.py on py2lean2) and "
+              "61 obligations prove each translated definition equal to the model's, incl. srcPinv_eq: the dispatched "
+              "translated pseudoinverse() IS the model's pinv; the property theorems are restated about the translated "
+              "code (src_*) + 4 `decide` obligations over tables regenerated "
               "from the live classes on every run (method resolution of pseudoinverse / _h_matrix_pseudoinverse / "
               "has_true_inverse, the set of family classes, the instance attributes pseudoinverse() writes: none) + "
               "model/implementation correspondence on generated transforms and on whole operation sequences + "
@@ -57,17 +64,57 @@ INFO = dict(
                "_build_coefficients solve the transposed system on the kept right-singular subspace for any factors "
                "meeting the SVD contract, hence exactly when nothing is truncated or the data is attainable; "
                "R2LogR2RBF = 2 R2LogRRBF define the same warp; the inverse as coded before the fix (kernel re-used) "
-               "is refuted by a witness.  The model is tied to /repo by the regenerated tables and by running the "
+               "is refuted by a witness.  TRANSLATED, not transcribed: Homogeneous.pseudoinverse / "
+               "_h_matrix_pseudoinverse / has_true_inverse / n_dims / h_matrix / __init__ / _set_h_matrix / _apply, "
+               "Affine.__init__ / _set_h_matrix / linear_component / translation_component, Similarity.__init__, "
+               "Translation / UniformScale / NonUniformScale / Rotation .__init__ and .pseudoinverse, the scale and "
+               "rotation_matrix properties, set_rotation_matrix, HomogFamilyAlignment.copy / pseudoinverse, "
+               "VInvertible.pseudoinverse_vector, ThinPlateSplines.__init__ / pseudoinverse / has_true_inverse, "
+               "AbstractPWA.__init__ / pseudoinverse / has_true_inverse / _apply / _rebuild_target_vectors, alpha_beta, "
+               "barycentric_vectors, Targetable.set_target / _target_setter_with_verification / _verify_target, "
+               "Alignment._target_setter and the two _sync_state_from_target of the warps (so that whole set_target / "
+               "pseudoinverse() histories of translated spline and piecewise-affine objects are theorems: "
+               "src_tps_ops_pinv_sound, src_pwa_ops_pinv_sound), tcoords_to_image_coords, image_coords_to_tcoords - each is read from the source text "
+               "of the working tree on every run, rewritten statement by statement into Lean (Generated/C04Src.lean; a "
+               "method call on self = the translated body of the class the live MRO table names) and PROVED equal to the "
+               "model for all arguments (GenProps/C04Src.lean): Translation(t) = ofAffine 1 t, UniformScale / "
+               "NonUniformScale(v) = ofAffine diag(v) 0 (numpy's cycling fill_diagonal plus the corner reset), Rotation(R) = "
+               "ofAffine R 0, the six pseudoinverse bodies = pinvHBy with the class and end points the model says, "
+               "srcPinv_eq (the translated, dispatched pseudoinverse() is pinv on every well-formed object), the spline "
+               "constructor assembles sysL and defaults to a kernel centred on the source, its pseudoinverse is the reverse "
+               "fit with a kernel of the same class RE-CENTRED and the same min_singular_val, the PWA pseudoinverse puts "
+               "the SOURCE trilist on the target points whatever the target carries, alpha_beta / _apply are Tri.ab / "
+               "piece, tcoords is tcoordsToImage and its pinv.  pinv_sound, hom_ops_pinv_sound, pinv_involutive, the "
+               "spline reverse fit, the PWA round trip and tcoords_roundtrip are restated ABOUT THE TRANSLATED CODE "
+               "(src_pinv_sound ... src_tcoords_roundtrip).  A harmless rewrite (renamed temporary, re-ordered independent "
+               "statements, inverted test with swapped arms, keyword order) keeps the proofs; another constructor, a "
+               "dropped negation / reciprocal / exchange, a kernel left on the old centres, the target's own trilist, a "
+               "tolerance-based factory in the path break them (checked on a scratch worktree: 5 rewrites, 9 changed "
+               "decisions).  Chains: chain_pinv_sound - for any number of members the reversed chain of pseudoinverses "
+               "has the inverse matrix product and undoes the chain from both sides.  The model is also tied to /repo by "
+               "the regenerated tables and by running the "
                "real classes on generated members of every class, 2-D and 3-D (matrices as C / Fortran / strided / "
                "transposed-view / read-only / int64 / float32 arrays, unimodular integer matrices with condition "
-               "numbers up to 1e6, landmark sets as every one of the 8 shape classes and as int64 arrays, PWA sources "
+               "numbers up to 1e6, parameters at a tolerance's edge in every run and for every class - per-axis factors "
+               "differing by a few parts in a million, magnitudes 2^26..2^33 and 2^-33..2^-26, rotations by 1e-4 rad, "
+               "projective rows of 1e-9, round trips then compared RELATIVELY (cond(L)·(|x| + |L^-1 t|)) -, "
+               "landmark sets as every one of the 8 shape classes and as int64 arrays, PWA sources "
                "as meshes or as point sets triangulated by the constructor, targets carrying triangulations of their "
                "own), fresh and with previous lives, and diffing inverse matrices, class names, end points, forward "
                "and backward images, whole operation sequences query by query, index_alpha_beta and the containment "
                "error mask on float-exact lattice meshes (bit-exact round trip on vertices, edge points and points "
                "just outside), pseudoinverse_vector, and the coded solve on numpy's SVD factors against the Lean "
                "driver; the oracle decides the property on the real objects.",
-    level_note="Trusted: Lean kernel; axioms propext/Classical.choice/Quot.sound; the Python harness, "
+    level_note="Trusted: Lean kernel; axioms propext/Classical.choice/Quot.sound; the source-to-Lean translator "
+               "(harness/py2lean2.py, harness/trans_c04.py: the rules map each numpy / attribute expression of the "
+               "vocabulary to the word of Core/C04Src.lean of the same meaning - np.eye, h[:-1, -1] = t, h[:-1, :-1] = L, "
+               "np.fill_diagonal, h.diagonal()[:-1], -v, 1.0 / v, np.linalg.inv = the exact inverse, kernel.apply = the "
+               "kernel matrix, np.concatenate = block assembly, np.einsum = dot product, TriMesh(points, trilist) - and "
+               "array code is read per point / per triangle); method bodies are specialised to the call shape the "
+               "pseudoinverse paths use (copy=False, skip_checks=True: the sanity checks of _set_h_matrix are not "
+               "translated); compose_before of two Homogeneous members and the Scale factory in tcoords.py are words "
+               "(C03's / C20's subjects); from_vector / as_vector in pseudoinverse_vector are parameters (C05's); the "
+               "Python harness, "
                "harness/extract_c04.py (table extraction: MRO walk over the live classes, common.attr_writes on live "
                "objects) and the driver's parser.  Library contracts (validated numerically on every case): "
                "np.linalg.inv returns B with A.B = 1 (then B is the model's inverse: inv_contract_unique); "
@@ -95,8 +142,24 @@ INFO = dict(
     assumptions=["inputs are in general position with bounded condition number, as the property's quantifier states "
                  "(generator enforces it with exact arithmetic on the inputs)"],
     design_ref="DESIGN.md section 6, C04; section 7 item 1; section 14")
-IMPORTS = ["MenpoModel.Props.C04", "MenpoModel.GenProps.C04"]
-GEN_THEOREMS = [
+IMPORTS = ["MenpoModel.Props.C04", "MenpoModel.GenProps.C04", "MenpoModel.GenProps.C04Src"]
+# obligations over the pseudoinverse code TRANSLATED FROM SOURCE on every run (harness/trans_c04.py -> Generated/C04Src.lean)
+SRC_THEOREMS = ["MenpoModel.GenProps.C04Src." + t for t in (
+    "supOf_ok m_h_matrix_eq m_n_dims_eq m_translation_component_eq m_linear_component_eq m_rotation_matrix_eq "
+    "m_scale_u_eq m_scale_v_eq m_set_h_matrix_FT_eq m_set_rotation_matrix_T_eq gen_Homogeneous_init_FT_eq "
+    "gen_Affine_init_FT_eq gen_Similarity_init_FT_eq ctor_dyn_FT_eq ctor_Translation_T_eq ctor_UniformScale_T_eq "
+    "ctor_NonUniformScale_T_eq ctor_Rotation_T_eq m_h_matrix_pseudoinverse_eq m_has_true_inverse_eq m_copy_eq "
+    "gen_Homogeneous_pseudoinverse_eq gen_Translation_pseudoinverse_eq gen_UniformScale_pseudoinverse_eq "
+    "gen_NonUniformScale_pseudoinverse_eq gen_Rotation_pseudoinverse_eq gen_HomogFamilyAlignment_pseudoinverse_eq "
+    "srcPinv_eq gen_pseudoinverse_vector_eq gen_Homogeneous_apply_eq gen_ThinPlateSplines_has_true_inverse_eq "
+    "gen_ThinPlateSplines_init_eq gen_ThinPlateSplines_pseudoinverse_eq src_tps_pinv_eq "
+    "gen_AbstractPWA_has_true_inverse_eq gen_AbstractPWA_init_eq gen_AbstractPWA_pseudoinverse_eq src_pwa_pinv_eq "
+    "gen_alpha_beta_eq gen_barycentric_vectors_eq gen_rebuild_target_vectors_eq gen_AbstractPWA_apply_eq src_piece_eq "
+    "ctor_Homogeneous_default_eq gen_tcoords_to_image_coords_eq gen_image_coords_to_tcoords_eq src_has_true_inverse "
+    "src_pinv_sound src_run_eq src_hom_ops_pinv_sound src_pinv_involutive src_tps_pinv_reverse_fit "
+    "src_pwa_pinv_roundtrip src_tcoords_roundtrip gen_set_target_tps_eq gen_set_target_pwa_eq src_tps_ops_pinv_sound "
+    "src_pwa_ops_pinv_sound srcChainPinv_eq src_chain_pinv_sound").split()]
+GEN_THEOREMS = SRC_THEOREMS + [
     "MenpoModel.GenProps.C04.dispatch_ok",
     "MenpoModel.GenProps.C04.family_ok",
     "MenpoModel.GenProps.C04.pinvWrites_ok",
@@ -140,6 +203,8 @@ THEOREMS = [
     "MenpoModel.C04.tps_ops_pinv_sound",
     "MenpoModel.C04.pwa_ops_pinv_sound",
     "MenpoModel.C04.pwa_ops_roundtrip_certified",
+    # chains of any length (Props/C04Chain.lean)
+    "MenpoModel.C04.chain_pinv_sound",
     # the triangulation certificate (Props/C04Mesh.lean)
     "MenpoModel.C04.piece_affine",
     "MenpoModel.C04.sepOK_agree",
@@ -516,6 +581,106 @@ def gen_target(rng, src, d):
     return tgt
 
 
+EXTREMES = ["near-isotropic", "huge", "tiny"]
+
+
+def gen_hom_extreme(rng, cls, d, kind):
+    """Members whose parameters are perfectly well conditioned RELATIVE TO ONE ANOTHER but sit where a tolerance-based
+    decision (np.allclose in the Scale factory or in a sanity check, an absolute epsilon) would take the wrong turn:
+    per-axis factors that differ by a few parts in a million ("near-isotropic": [3.0, 3.00002]), very large or very
+    small magnitudes ("huge" / "tiny": a metres -> nanometres conversion), rotations by a tiny angle, a projective row of
+    1e-9.  The property quantifies over all non-singular parameter values with bounded condition number - these are."""
+    r = {"kind": "hom", "cls": cls, "d": d, "history": rng.choice([None, None, "pinv-then-update"]), "extreme": kind}
+    if not cls.startswith("Alignment"):
+        r["array"] = rng.choice(["C", "C", "F", "readonly"])
+    mag = {"huge": float(2 ** rng.randint(26, 33)), "tiny": float(2.0 ** -rng.randint(26, 33))}.get(kind, 1.0)
+    delta = rng.choice([2e-6, 4e-6, 5e-6, 7e-6, 9e-6])
+
+    def factors():
+        if kind == "near-isotropic":
+            base = rng.choice([1.0, 3.0, 0.5, 7.0, -2.0])
+            v = [base] * d
+            i = rng.randrange(d)
+            v[i] = base * (1.0 + delta)
+            if d == 3 and rng.random() < 0.5:
+                v[(i + 1) % 3] = base * (1.0 - delta)
+            return v
+        while True:
+            v = [rng.choice([-1, 1]) * rng.choice([1.0, 2.0, 3.0, 5.0, 2.5, 1.5]) for _ in range(d)]
+            if len(set(v)) > 1:
+                return [x * mag for x in v]
+
+    def small_rotation():
+        if d == 2:
+            t = Fraction(1, 2 ** rng.randint(8, 14))
+            c, s_ = (1 - t * t) / (1 + t * t), 2 * t / (1 + t * t)
+            return [[c, -s_], [s_, c]]
+        q = [Fraction(2 ** rng.randint(8, 12))] + [Fraction(rng.randint(-2, 2)) for _ in range(3)]
+        if all(x == 0 for x in q[1:]):
+            q[1] = Fraction(1)
+        n2 = sum(x * x for x in q)
+        w, x, y, z = q
+        return [[(w * w + x * x - y * y - z * z) / n2, 2 * (x * y - z * w) / n2, 2 * (x * z + y * w) / n2],
+                [2 * (x * y + z * w) / n2, (w * w - x * x + y * y - z * z) / n2, 2 * (y * z - x * w) / n2],
+                [2 * (x * z - y * w) / n2, 2 * (y * z + x * w) / n2, (w * w - x * x - y * y + z * z) / n2]]
+
+    if cls == "NonUniformScale":
+        r["v"] = factors()
+    elif cls == "UniformScale":
+        r["s"] = (1.0 + delta) if kind == "near-isotropic" else rng.choice([-1, 1]) * rng.choice([1.0, 3.0, 5.0]) * mag
+    elif cls == "Translation":
+        r["t"] = [dy(rng, 60, 3) * (mag if kind != "near-isotropic" else 2.0 ** -20) for _ in range(d)]
+    elif cls == "Rotation":
+        r["R"] = fl(small_rotation() if kind == "near-isotropic" else rat_rotation(rng, d))
+    elif cls in ("Similarity", "Affine", "Homogeneous"):
+        if cls == "Similarity":
+            R = small_rotation() if kind == "near-isotropic" else rat_rotation(rng, d)
+            k = (1.0 + delta) if kind == "near-isotropic" else rng.choice([1.0, 3.0, 5.0]) * mag
+            L = [[float(R[i][j]) * k for j in range(d)] for i in range(d)]
+        else:
+            v = factors()
+            if cls == "Homogeneous":
+                # a projective matrix is scaled as a whole, below; moderate factors keep the probes inside the domain
+                v = [x / mag for x in v] if kind != "near-isotropic" else [x / abs(v[0]) * 1.5 for x in v]
+                v = [max(-2.0, min(2.0, x)) if kind != "near-isotropic" else x for x in v]
+                if kind != "near-isotropic" and len(set(v)) == 1:
+                    v[0] = -v[0]
+            L = [[v[i] if i == j else 0.0 for j in range(d)] for i in range(d)]
+            if rng.random() < 0.5:          # a shear on top: not diagonal, still the same conditioning
+                L[0][1] = v[0] * 0.5
+        tmag = mag if (kind != "near-isotropic" and cls != "Homogeneous") else 1.0
+        tr_ = [(dy(rng, 8, 2) if cls == "Homogeneous" else dy(rng, 40, 2)) * tmag for _ in range(d)]
+        h = [L[i] + [tr_[i]] for i in range(d)] + [[0.0] * d + [1.0]]
+        if cls == "Homogeneous":
+            h[d][rng.randrange(d)] = 2.0 ** -rng.randint(28, 32)        # a projective row a tolerance would call affine
+            if kind != "near-isotropic":          # the same projective map with every entry huge / tiny
+                h = [[x * mag for x in row] for row in h]
+        r["h"] = h
+    else:
+        n = rng.randint(d + 1, d + 4)
+        src = general_cloud(rng, d, n)
+        tgt = gen_target(rng, src, d)
+        if kind == "near-isotropic":       # the fit is (nearly) the identity
+            tgt = [[float(F(v) + Fraction(rng.randint(-3, 3), 2 ** 22)) for v in p_] for p_ in src]
+        else:
+            tgt = [[v * mag for v in p_] for p_ in tgt]
+        r["source"], r["target"] = src, tgt
+        r["src_as"], r["tgt_as"] = gen_shape_spec(rng, n, d), gen_shape_spec(rng, n, d)
+        for sp in (r["src_as"], r["tgt_as"]):
+            sp.pop("dtype", None)
+        if cls == "AlignmentSimilarity":
+            r["kwargs"] = {"rotation": True, "allow_mirror": False}
+    # probe points away from the origin (relative comparisons)
+    r["xs"] = [[rng.choice([-1, 1]) * (1 + rng.randint(1, 40) / 4.0) for _ in range(d)] for _ in range(4)]
+    r["x2"] = [[rng.choice([-1, 1]) * (1 + rng.randint(1, 40) / 4.0) for _ in range(d)] for _ in range(3)]
+    if cls == "Homogeneous":
+        r["xs"] = [[rng.choice([-1, 1]) * rng.randint(1, 8) / 4.0 for _ in range(d)] for _ in range(4)]
+        r["x2"] = [[rng.choice([-1, 1]) * rng.randint(1, 8) / 4.0 for _ in range(d)] for _ in range(3)]
+    elif kind in ("huge", "tiny") and cls not in ("Translation", "Rotation"):
+        r["x2"] = [[v * mag for v in p_] for p_ in r["x2"]]          # points of the TARGET side live at that scale
+    return r
+
+
 def gen_hom(rng, cls=None, d=None, history=True):
     cls = cls or rng.choice(FAMILY)
     d = d or rng.choice([2, 3])
@@ -826,14 +991,15 @@ def family_class_name(obj):
     return n if n in FAMILY and getattr(T, n) is type(obj) else None
 
 
-def exact_domain_ok(h, pts):
-    """projective members: every probe point keeps its homogeneous coordinate clearly away from 0 (exact)"""
+def exact_domain_ok(h, pts, unit=1):
+    """projective members: every probe point keeps its homogeneous coordinate clearly away from 0 (exact); `unit` = the
+    magnitude an entry of the matrix has (a projective matrix may be scaled as a whole)"""
     d = len(h) - 1
     for p in pts:
         hp = [F(v) for v in p] + [F(1)]
         w = sum(F(h[d][j]) * hp[j] for j in range(d + 1))
         m = max(abs(sum(F(h[i][j]) * hp[j] for j in range(d + 1))) for i in range(d + 1))
-        if abs(w) * 16 < max(m, 1):
+        if abs(w) * 16 < max(m, unit):
             return False
     return True
 
@@ -856,10 +1022,18 @@ def oracle_hom(ctx, t, cls, d, xs, x2, rp):
         return None       # single precision: "bounded condition number" means bounded relative to 1e-7, not to 1e-16
     hq = [[F(v) for v in row] for row in h]
     big = max(amax(h), 1.0)
+    extreme = ((rp or {}).get("recipe") or {}).get("extreme")
     cn = cond_inf(hq)
+    cL = None
+    if extreme and cls != "Homogeneous":
+        # parameters at a tolerance's edge (very large / small magnitudes): "bounded condition number" is about the
+        # linear part - diag(2e8, 6e8) has condition number 3, whatever the homogeneous corner 1 makes of the full matrix
+        cL = cond_inf([row[:d] for row in hq[:d]])
+        cn = cL
     if cn is None or cn > 10 ** 6:
         return None       # singular / ill conditioned (e.g. a degenerate alignment): outside the quantifier
-    if cls == "Homogeneous" and not exact_domain_ok(h.tolist(), np.asarray(xs).tolist() + np.asarray(x2).tolist()):
+    if cls == "Homogeneous" and not exact_domain_ok(h.tolist(), np.asarray(xs).tolist() + np.asarray(x2).tolist(),
+                                                    abs(F(h[d][d])) if extreme else 1):
         return None
     site = "C04/hom.pinv"
     is_al = cls.startswith("Alignment")
@@ -885,6 +1059,21 @@ def oracle_hom(ctx, t, cls, d, xs, x2, rp):
         cls, d, np.asarray(back).tolist(), np.asarray(xs).tolist()), rp)
     ctx.check(near(y3, y2, scale, tol), site + "/right", "roundtrip", "t.apply(pinv.apply(y)) != y for %s %dD: %r vs %r" % (
         cls, d, np.asarray(y3).tolist(), np.asarray(y2).tolist()), rp)
+    if cL is not None:
+        # RELATIVE round trips: for an affine map x -> Lx + t the float error of pinv(t(x)) is a few ulps times
+        # cond(L)·(|x| + |L^-1 t|), and that of t(pinv(y)) times cond(L)·(|y| + |t|) - never the 1e-9·(largest entry of the
+        # matrices) the absolute comparison above allows when the parameters are huge
+        L_, t_ = h[:d, :d], h[:d, d]
+        cLf = float(cL)
+        bl = 1e-9 * cLf * (amax(xs) + amax(np.linalg.solve(L_, t_)))
+        br = 1e-9 * cLf * (amax(y2) + amax(t_))
+        el, er = amax(np.asarray(back) - xs), amax(np.asarray(y3) - y2)
+        ctx.check(el <= bl, site + "/left", "roundtrip-relative",
+                  "pinv.apply(t.apply(x)) != x for %s %dD with %s parameters: error %.3g, allowed %.3g (relative); the "
+                  "pseudoinverse is a %s with matrix %r" % (cls, d, extreme, el, bl, type(p).__name__, ph.tolist()), rp)
+        ctx.check(er <= br, site + "/right", "roundtrip-relative",
+                  "t.apply(pinv.apply(y)) != y for %s %dD with %s parameters: error %.3g, allowed %.3g (relative); the "
+                  "pseudoinverse is a %s with matrix %r" % (cls, d, extreme, er, br, type(p).__name__, ph.tolist()), rp)
     pname = family_class_name(p)
     ctx.check(pname is not None and isinstance(p, T.Homogeneous), site + "/class", "not-family",
               "pseudoinverse of %s is a %s, not a homogeneous-family class" % (cls, type(p).__name__), rp)
@@ -917,6 +1106,8 @@ def case_hom(ctx, r, lines, pend, cid):
         return False
     ctx.count("class:%s/%dD" % (cls, d))
     ctx.count("history:hom:" + str(r.get("history")))
+    if r.get("extreme"):
+        ctx.count("parameters:%s:%s" % (r["extreme"], cls))
     if cls.startswith("Alignment"):
         ctx.count("landmarks:%s/%s" % (t.source.points.dtype, t.target.points.dtype))
         ctx.count("landmarks-as:%s" % type(t.source).__name__)
@@ -1521,7 +1712,13 @@ def case_homops(ctx, r, lines, pend, cid):
             toks.append("q %d %s" % (len(xs), common.fqs(np.asarray(obs["y"], dtype=float).ravel())))
             continue
         if k == "apply":
-            t.apply(np.array(op[1], dtype=float))
+            try:
+                t.apply(np.array(op[1], dtype=float))
+            except Exception as e:      # noqa: BLE001 - apply of a family member is total on affine members
+                if cls != "Homogeneous":
+                    ctx.fail("C04/hom.pinv/raises", type(e).__name__, "apply raised %s on a %s (between two "
+                             "pseudoinverse() queries)" % (type(e).__name__, cls), rp)
+                    return True
             continue
         before = pid(t.target) if is_al else None
         try:
@@ -1618,7 +1815,12 @@ def case_pwaops(ctx, r, lines, pend, cid):
             obs_list.append(obs)
             toks.append("q %d %s" % (len(xs) + len(y2), flat(np.vstack([obs["y"], y2]))))
         elif op[0] == "apply":
-            t.apply(np.array(op[1], dtype=float))
+            try:
+                t.apply(np.array(op[1], dtype=float))
+            except Exception as e:      # interior points of a non-degenerate source mesh: apply has to succeed
+                ctx.fail("C04/pwa.pinv/raises", type(e).__name__, "PWA apply raised %s on interior points of a "
+                         "non-degenerate mesh (between two pseudoinverse() queries)" % type(e).__name__, rp)
+                return True
         else:
             try:
                 t.set_target(make_shape(op[2], op[1]))
@@ -1736,6 +1938,10 @@ def compare(ctx, pend, model):
             mh = np.array([float(Fraction(x)) for x in g[0]]).reshape(d + 1, d + 1)
             if not near(mh, o["ph"], max(sc, amax(mh)), tl_):
                 ctx.mismatch("hom.h_matrix", "model inverse %r vs implementation %r" % (mh.tolist(), o["ph"].tolist()), rp)
+            elif rp["recipe"].get("extreme") and rp["recipe"]["cls"].replace("Alignment", "") in (
+                    "UniformScale", "NonUniformScale") and not bool(np.all(np.abs(mh - o["ph"]) <= 1e-9 * np.abs(mh))):
+                ctx.mismatch("hom.h_matrix", "model inverse %r vs implementation %r (entry by entry, relative)" % (
+                    mh.tolist(), o["ph"].tolist()), rp)
             if o["cls"] != rp["recipe"]["cls"]:
                 ctx.mismatch("hom.class", "model keeps class %s, implementation returned %s" % (rp["recipe"]["cls"], o["cls"]), rp)
             if not near(nums(g[1], d), o["y"], sc, tl_):
@@ -1906,11 +2112,41 @@ def sig(r):
 def gen_case(rng, kind, k):
     if kind == "hom":
         # cycle deterministically through class × dimension so every run covers all 24 combinations
+        if (k // 24) % 3 == 2:        # every third round through class × dimension: parameters at a tolerance's edge
+            return gen_hom_extreme(rng, FAMILY[k % 12], 2 + (k // 12) % 2, EXTREMES[(k // 72) % 3])
         return gen_hom(rng, FAMILY[k % 12], 2 + (k // 12) % 2)
     if kind == "homops":
         return gen_homops(rng, FAMILY[k % 12], 2 + (k // 12) % 2)
     return {"tcoords": gen_tcoords, "pwa": gen_pwa, "tps": gen_tps, "pwaops": gen_pwaops, "tpsops": gen_tpsops,
             "pwax": gen_pwax}[kind](rng)
+
+
+def _classes_named(names):
+    """the classes whose objects run the translated definitions / obligations called `names`"""
+    out = []
+
+    def add(c):
+        if c not in out:
+            out.append(c)
+    al = [c for c in FAMILY if c.startswith("Alignment")]
+    for n in names:
+        if "ThinPlateSplines" in n or "tps" in n:
+            add("ThinPlateSplines")
+        elif "AbstractPWA" in n or "pwa" in n or "alpha_beta" in n or "barycentric" in n or "rebuild" in n or "piece" in n:
+            add("AbstractPWA")
+        elif "tcoords" in n or "Homogeneous_default" in n:
+            add("tcoords")
+        elif "HomogFamilyAlignment" in n or "copy" in n:
+            for c in al:
+                add(c)
+        else:
+            hit = [c for c in FAMILY if not c.startswith("Alignment") and ("_%s_" % c in n or n.endswith("_" + c + "_T_eq")
+                                                                          or "ctor_%s" % c in n)]
+            if "NonUniformScale" in n:
+                hit = ["NonUniformScale"]
+            for c in hit or FAMILY:      # a shared piece (the method table, Homogeneous.*, srcPinv): every class
+                add(c)
+    return out
 
 
 def search(ctx):
@@ -1936,9 +2172,27 @@ def search(ctx):
                 first += [("tpsops",)] * 20
             elif c in ("PythonPWA", "CachedPWA"):
                 first += [("pwaops",)] * 20
+    # a broken obligation of the TRANSLATED code names the functions whose source no longer says what the model says:
+    # the classes that run them first (ordinary members, members at a tolerance's edge, histories), then the usual plan
+    for bo in ctx.broken_obligations[:3]:
+        names = [u.split(":")[0] for u in (bo.get("untranslatable") or [])] + list(bo.get("failed_theorems") or [])
+        for c in _classes_named(names):
+            if c in FAMILY:
+                for d_ in (2, 3):
+                    first += [("homx", c, d_, k_) for k_ in EXTREMES for _ in range(4)]
+                    first += [("hom1", c, d_)] * 10 + [("homops1", c, d_)] * 6
+            elif c == "ThinPlateSplines":
+                first += [("tps",)] * 25 + [("tpsops",)] * 10
+            elif c == "AbstractPWA":
+                first += [("pwa",)] * 40 + [("pwax",)] * 20 + [("pwaops",)] * 10
+            elif c == "tcoords":
+                first += [("tcoords",)] * 30
     for item in first:
-        r = gen_hom(rng, item[1], item[2]) if item[0] == "hom1" else (
-            gen_homops(rng, item[1], item[2]) if item[0] == "homops1" else gen_case(rng, item[0], 0))
+        if item[0] == "homx":
+            r = gen_hom_extreme(rng, item[1], item[2], item[3])
+        else:
+            r = gen_hom(rng, item[1], item[2]) if item[0] == "hom1" else (
+                gen_homops(rng, item[1], item[2]) if item[0] == "homops1" else gen_case(rng, item[0], 0))
         CASE_FN[r["kind"]](ctx, r, dummy_lines, dummy_pend, "s")
         ctx.searched += 1
         if ctx.failures:
@@ -1954,7 +2208,9 @@ def search(ctx):
 
 
 def generated(ctx):
-    """regenerate the dispatch / write tables from the live classes and re-check the obligations over them"""
+    """regenerate the dispatch / write tables from the live classes and re-check the obligations over them; then
+    TRANSLATE the pseudoinverse code from the source text of the working tree and re-check that every translated
+    definition is the model's (GenProps/C04Src.lean)"""
     from . import extract_c04 as ex
     text, rows, writes, fam = ex.generate()
     ctx.notes["pseudoinverse_dispatch"] = {r[0]: list(r[1:]) for r in rows}
@@ -1967,6 +2223,63 @@ def generated(ctx):
         bo["observed_dispatch"] = {r[0]: list(r[1:]) for r in rows}
         bo["observed_family"] = fam
         bo["expected"] = "pseudoinverse() writes no instance attribute on any class; suppliers as in Core/C04Homog.implOf"
+    generated_src(ctx)
+
+
+def generated_src(ctx):
+    """the translator tie: source text -> Generated/C04Src.lean, obligations GenProps/C04Src.lean"""
+    from . import trans_c04 as tr
+    files, failed, tab = tr.generated_files()
+    n_obl = tr.n_obligations()
+    ctx.notes["src_translation"] = {
+        "translator": "harness/trans_c04.py on harness/py2lean2.py", "generated": tr.GEN_REL,
+        "obligations": n_obl, "untranslatable": failed,
+        "functions": "Homogeneous.pseudoinverse/_h_matrix_pseudoinverse/has_true_inverse/__init__/_set_h_matrix/n_dims/"
+                     "h_matrix/_apply, Affine.__init__/_set_h_matrix/h_matrix/linear_component/translation_component, "
+                     "Similarity.__init__, Translation/UniformScale/NonUniformScale/Rotation .__init__ and .pseudoinverse, "
+                     "UniformScale.scale, NonUniformScale.scale, Rotation.rotation_matrix/set_rotation_matrix, "
+                     "HomogFamilyAlignment.copy/pseudoinverse, VInvertible.pseudoinverse_vector, "
+                     "ThinPlateSplines.__init__/pseudoinverse/has_true_inverse, AbstractPWA.__init__/pseudoinverse/"
+                     "has_true_inverse/_apply/_rebuild_target_vectors, alpha_beta, barycentric_vectors, "
+                     "tcoords_to_image_coords, image_coords_to_tcoords; method table 12 classes x 14 methods"}
+    ok = common.build_generated(ctx, files, tr.GEN_TARGETS, n_obl)
+    if not ok and ctx.broken_obligations:
+        bo = ctx.broken_obligations[-1]
+        bo["obligation"] = "MenpoModel.GenProps.C04Src (the pseudoinverse code translated from source = the model)"
+        bo["untranslatable"] = failed
+        bo["failed_theorems"] = _failed_theorems(bo.get("errors", []))
+        bo["method_table"] = {c: {m: s for m, s in row.items() if m in ("pseudoinverse", "_h_matrix_pseudoinverse",
+                                                                      "has_true_inverse", "__init__", "copy")}
+                              for c, row in tab.items()}
+        bo["expected"] = ("every translated definition equals the Core definition of the same name "
+                          "(GenProps/C04Src.lean); a stub marks a function whose source has left the vocabulary")
+    return ok
+
+
+def _failed_theorems(err_lines):
+    """names of the theorems of GenProps/C04Src.lean on whose lines lake reported errors"""
+    import os
+    import re
+    path = os.path.join(common.LEAN, "MenpoModel", "GenProps", "C04Src.lean")
+    try:
+        src = open(path).read().splitlines()
+    except OSError:
+        return []
+    starts = [(i + 1, l.split()[1] if l.startswith("theorem ") else "(executed example)") for i, l in enumerate(src)
+              if l.startswith("theorem ") or l.startswith("example")]
+    out = []
+    for e in err_lines:
+        m = re.search(r"C04Src\.lean:(\d+):", e)
+        if not m or "GenProps" not in e:
+            continue
+        ln = int(m.group(1))
+        name = None
+        for st, nm in starts:
+            if st <= ln:
+                name = nm
+        if name and name not in out:
+            out.append(name)
+    return out
 
 
 def run(ctx):
